@@ -40,6 +40,26 @@ directories; the model (`c14.run` for the one target, from the files present bef
 the call's write log and the files afterwards. `api_generate_lands_in_own_dirs` (Props/C14.lean) is the
 theorem: from any state of the API object, `generate` writes `<directory of the generating context>/<name>`.
 
+Configuration file plus overriding options (`override` stream): the run is configured from a file (yaml / yml / json / toml,
+relative / in a sub directory / absolute) AND options — through `API.configure(path, options=…)` and through the real command
+line (`pydjinni --config f -o generate.cpp.out=… generate [--clean] idl targets…`, a process of its own, write log through
+`$PYDJINNI_VERIF_WRITELOG`). For every generator of the run the options may change the *shape* of `out` (split mapping -> one
+directory, one directory -> mapping, one key of the mapping, mapping -> mapping, directory -> directory), of `identifier.file`
+(style + prefix mapping <-> plain style name), and move the report. The effective configuration is the model's merge
+(`Sys/Config.lean: combine`, asked through `c17.merge`; `merge_override`, `merge_keeps`, `override_single_dir_wins`,
+`override_split_dir_wins`): a second context is configured from the merged mapping alone, its validated dump has to equal the
+one of the file + options context (`override:not-effective:<what>`), and `c14.spec` / `c14.run` are evaluated against IT —
+files, `clean` and the report follow the effective directories; the directories the file named and the options replaced hold
+stale files that nobody may touch.
+
+Generate -> purge -> generate (`regen` stream): ONE context of one API object runs two or three rounds of parse + generate
+(all targets) + report; between the rounds the output is purged by `clean=True` (what the language server does on every
+save), by the user removing the output directories, by the user removing *some* generated files, or not at all; the IDL only
+grows. Every call is checked as in the multi-context stream (`c14.callspec`, `c14.run` per call); the whole history is ONE
+observation for `c14.spec` (all writes, files at the end vs. files at the beginning, the last report, inputs = the reads of
+every parse): every listed file exists afterwards, the report is the write log, and below purged directories nothing but
+listed files remains (`history:<clause>`).
+
 Specification on the implementation's observation (`c14.spec`, Lean): every write below a configured
 output directory (not `<out>/<out>/…`), nothing else created/changed, deletions only by `clean` below
 the cleaned directories, report == write log per generator with its directories, inputs == root ∪
@@ -88,6 +108,10 @@ THEOREMS = [
     "Pydjinni.SysC.api_generate_lands_in_own_dirs",
     "Pydjinni.SysC.api_generate_under_own_out",
     "Pydjinni.SysC.legacy_generate_lands_in_foreign_dir",
+    "Pydjinni.Sys.merge_override",
+    "Pydjinni.Sys.merge_keeps",
+    "Pydjinni.Sys.override_single_dir_wins",
+    "Pydjinni.Sys.override_split_dir_wins",
 ]
 LEVEL = "proof"
 TRUSTED = ["sysworker.py adapter: dumps of the validated configuration and of the parser's declaration list are the model's inputs",
